@@ -239,7 +239,18 @@ def build(case):
     else:
         coords = AffineCoordinates(affine_matrix(case['pattern'], case['palette']))
         pattern = case['pattern']
-    d = Data(x=np.arange(int(np.prod(shape)), dtype=float).reshape(shape), coords=coords, label='d')
+    via = case.get('via')
+    if via is None:
+        d = Data(x=np.arange(int(np.prod(shape)), dtype=float).reshape(shape), coords=coords, label='d')
+    else:
+        # the coordinate object is ASSIGNED to a dataset that already has components and (other) coordinates
+        first = {'identity': lambda: IdentityCoordinates(n_dim=n), 'none': lambda: None,
+                 'other': lambda: AffineCoordinates(affine_matrix(np.identity(n, dtype=int).tolist(),
+                                                                  (case['palette'] + 1) % N_SEED_PALETTES))}[via]()
+        d = Data(x=np.arange(int(np.prod(shape)), dtype=float).reshape(shape), coords=first, label='d')
+        if via == 'other':
+            d.coords = None          # ... dropped, and set again
+        d.coords = coords
     return d, coords, pattern
 
 
@@ -451,6 +462,13 @@ def all_cases(tier):
                     if n < 3 or tier == 'thorough' or sum(map(sum, p)) == 3:
                         cases.append(dict(kind='affine', pattern=p, palette=TINY_PAL, shape=list(ss[n])))
                         cases.append(dict(kind='affine', pattern=p, palette=INT_PAL, shape=list(ss[n])))
+    # coordinates REPLACED on an existing dataset (same dimensionality): world attributes and links must follow
+    base = pals[0]
+    for n in (3, 2, 1):
+        for p in patterns(n):
+            if n < 3 or sum(map(sum, p)) <= (9 if tier == 'thorough' else 4):
+                for via in ('identity', 'none', 'other'):
+                    cases.append(dict(kind='affine', pattern=p, palette=base, shape=list(SHAPES[n]), via=via))
     return cases
 
 
@@ -504,7 +522,7 @@ def run(tier):
 
 def _case_of(v):
     c = v['case']
-    return dict((k, c[k]) for k in ('kind', 'pattern', 'palette', 'shape') if k in c)
+    return dict((k, c[k]) for k in ('kind', 'pattern', 'palette', 'shape', 'via') if k in c)
 
 
 def confirm(v, verbose=False):
